@@ -18,6 +18,48 @@ fn unhex(s: &str) -> Vec<u8> {
     (0..s.len() / 2).map(|i| u8::from_str_radix(&s[2 * i..2 * i + 2], 16).unwrap()).collect()
 }
 
+/// six arguments `<consistency> <skip 0|1> <page -|i32> <paging -|hex|e> <serial -|u16> <ts -|i64>` and a cell list `n|u|v<byte>,..|-`
+fn params_from<'a>(a: &[&str], cells: &str) -> QueryParameters<'a> {
+    let cons = Consistency::try_from(a[0].parse::<u16>().unwrap()).unwrap();
+    QueryParameters {
+        consistency: cons,
+        serial_consistency: if a[4] == "-" { None } else { Some(SerialConsistency::try_from(a[4].parse::<i16>().unwrap()).unwrap()) },
+        timestamp: if a[5] == "-" { None } else { Some(a[5].parse().unwrap()) },
+        page_size: if a[2] == "-" { None } else { Some(a[2].parse().unwrap()) },
+        paging_state: match a[3] {
+            "-" => PagingState::start(),
+            "e" => PagingState::new_from_raw_bytes(Vec::<u8>::new()),
+            h => PagingState::new_from_raw_bytes(unhex(h)),
+        },
+        skip_metadata: a[1] == "1",
+        values: Cow::Owned(cells_from(cells)),
+    }
+}
+
+fn cells_from(cells: &str) -> SerializedValues {
+    let mut values = SerializedValues::new();
+    if cells != "-" {
+        for c in cells.split(',') {
+            let ti = ColumnType::Native(NativeType::TinyInt);
+            if c == "n" {
+                values.add_value(&None::<i8>, &ti).unwrap();
+            } else if c == "u" {
+                values.add_value(&MaybeUnset::<i8>::Unset, &ti).unwrap();
+            } else {
+                values.add_value(&(c[1..].parse::<u8>().unwrap() as i8), &ti).unwrap();
+            }
+        }
+    }
+    values
+}
+
+fn frame_of<R: scylla_cql::frame::request::SerializableRequest>(r: &R, tracing: bool) -> String {
+    match SerializedRequest::make(r, None, tracing) {
+        Ok(f) => hex(f.get_data()),
+        Err(_) => "ERR".to_string(),
+    }
+}
+
 fn main() {
     std::panic::set_hook(Box::new(|_| {}));
     for line in std::io::stdin().lock().lines() {
@@ -78,6 +120,68 @@ fn main() {
                     }
                 }
             }
+            // req <kind> <tracing 0|1> ...: the frame SerializedRequest::make builds for the other request kinds
+            "req" => {
+                use scylla_cql::frame::request::{auth_response::AuthResponse, batch::{Batch, BatchStatement, BatchType}, execute::ExecuteV2, options::Options,
+                                                 prepare::Prepare, register::RegisterV2, startup::Startup};
+                use scylla_cql::frame::response::result::cow_bytes::CowBytes;
+                use scylla_cql::frame::server_event_type::EventTypeV2;
+                let tracing = a[2] == "1";
+                match a[1] {
+                    "prepare" => {
+                        let text = String::from_utf8_lossy(&unhex(a[3])).into_owned();
+                        frame_of(&Prepare { query: &text }, tracing)
+                    }
+                    "options" => frame_of(&Options, tracing),
+                    "auth" => frame_of(&AuthResponse { response: if a[3] == "none" { None } else { Some(unhex(a[3])) } }, tracing),
+                    "startup" => {
+                        let mut options = std::collections::HashMap::new();
+                        for e in a[3].split(',') {
+                            let (k, v) = e.split_once(':').unwrap();
+                            options.insert(Cow::Owned(String::from_utf8_lossy(&unhex(k)).into_owned()), Cow::Owned(String::from_utf8_lossy(&unhex(v)).into_owned()));
+                        }
+                        frame_of(&Startup { options }, tracing)
+                    }
+                    "register" => {
+                        let evs: Vec<EventTypeV2> = a[3].split(',').filter(|s| *s != "-").map(|s| match s {
+                            "TopologyChange" => EventTypeV2::TopologyChange, "StatusChange" => EventTypeV2::StatusChange,
+                            "SchemaChange" => EventTypeV2::SchemaChange, _ => EventTypeV2::ClientRoutesChange,
+                        }).collect();
+                        frame_of(&RegisterV2 { event_types_to_register_for: evs }, tracing)
+                    }
+                    // req execute <tracing> <id hex|-> <none|metadata id hex|-> <6 parameter args> <cells>
+                    "execute" => {
+                        let id = unhex(a[3]);
+                        let mid = if a[4] == "none" { None } else { Some(unhex(a[4])) };
+                        let e = ExecuteV2 {
+                            id: CowBytes::from(&id[..]),
+                            result_metadata_id: mid.as_ref().map(|m| CowBytes::from(&m[..])),
+                            parameters: params_from(&a[5..11], a[11]),
+                        };
+                        frame_of(&e, tracing)
+                    }
+                    // req batch <tracing> <type 0|1|2> <consistency> <serial|-> <ts|-> <statements q<hex>|p<hex>,..|-> <value lists cells;cells|->
+                    "batch" => {
+                        let bt = match a[3] { "0" => BatchType::Logged, "1" => BatchType::Unlogged, _ => BatchType::Counter };
+                        let texts: Vec<(bool, Vec<u8>)> = a[7].split(',').filter(|s| *s != "-").map(|s| (s.starts_with('q'), unhex(if s.len() > 1 { &s[1..] } else { "-" }))).collect();
+                        let strs: Vec<String> = texts.iter().map(|(_, b)| String::from_utf8_lossy(b).into_owned()).collect();
+                        let statements: Vec<BatchStatement> = texts.iter().zip(strs.iter()).map(|((isq, b), s)| {
+                            if *isq { BatchStatement::Query { text: Cow::Borrowed(s.as_str()) } } else { BatchStatement::Prepared { id: Cow::Borrowed(&b[..]) } }
+                        }).collect();
+                        let values: Vec<SerializedValues> = if a[8] == "-" { vec![] } else { a[8].split(';').map(cells_from).collect() };
+                        let b = Batch {
+                            statements: Cow::Borrowed(&statements[..]),
+                            batch_type: bt,
+                            consistency: Consistency::try_from(a[4].parse::<u16>().unwrap()).unwrap(),
+                            serial_consistency: if a[5] == "-" { None } else { Some(SerialConsistency::try_from(a[5].parse::<i16>().unwrap()).unwrap()) },
+                            timestamp: if a[6] == "-" { None } else { Some(a[6].parse().unwrap()) },
+                            values,
+                        };
+                        frame_of(&b, tracing)
+                    }
+                    _ => "UNKNOWN".to_string(),
+                }
+            }
             // duration <months> <days> <nanos>: serialized duration cell body (three vints) and the value decoded back from it
             "duration" => {
                 use scylla_cql_core::deserialize::value::DeserializeValue;
@@ -115,6 +219,10 @@ fn main() {
                     "S3AllowMissingA" => S3AllowMissingA { a: x, b: y, c: z }.serialize(&typ, w).map(|_| ()),
                     "S3AllowMissingB" => S3AllowMissingB { a: x, b: y, c: z }.serialize(&typ, w).map(|_| ()),
                     "S3Strict" => S3Strict { a: x, b: y, c: z }.serialize(&typ, w).map(|_| ()),
+                    "S3OrderedStrict" => S3OrderedStrict { a: x, b: y, c: z }.serialize(&typ, w).map(|_| ()),
+                    "S3OrderedNoNames" => S3OrderedNoNames { a: x, b: y, c: z }.serialize(&typ, w).map(|_| ()),
+                    "S3Rename" => S3Rename { a: x, b: y, c: z }.serialize(&typ, w).map(|_| ()),
+                    "S3Skip" => S3Skip { a: x, b: y, c: z }.serialize(&typ, w).map(|_| ()),
                     _ => S3Ordered { a: x, b: y, c: z }.serialize(&typ, w).map(|_| ()),
                 };
                 match r {
